@@ -4,7 +4,7 @@
 // (the sources are compiled with `-include sync/shim.h`).
 //
 //   reset
-//   scen <prim> <init> <sec> <nsec> <quantum_ns> <spur> <eintr> [F:<n>] T:<ret>:<op>,<op>,... T:<ret>:...   -> ok <threads>
+//   scen <prim> <init> <sec> <nsec> <quantum_ns> <spur> <eintr> [F:<n> | N:<n>] T:<ret>:<op>,<op>,... T:<ret>:...   -> ok <threads>
 //        prim = mtx | sem | sig | mon | thr ; init = initial count (sem) / initially set (sig)
 //        ops  = lock try-<skip> unlock | signal wait twait-<ms> trywait | set reset wait twait-<ms> |
 //               lock try-<skip> unlock wait twait-<ms> set | start-<j> mstart-<j> (member-function overload) xstart-<8j+k> (same on object j with the body of program k) join-<j> dtor-<j> (~Thread) | destroy (sig, mon: delete the object)
@@ -43,7 +43,7 @@ struct Prog { Op ops[64]; int n; unsigned long ret; };
 
 static Prim prim = P_NONE;
 static long initVal, clkSec, clkNsec, quantum;
-static int spur, eintr, createFail, nprog;
+static int spur, eintr, createFail, enosys, nprog;
 static Prog prog[SCHED_MAXT];
 
 static Mutex* mtx; static Semaphore* sem; static Signal* sig; static Monitor* mon;
@@ -221,13 +221,19 @@ static bool parseScen(HxLine& l)
   prim = pr;
   initVal = hxInt(l, 2); clkSec = hxInt(l, 3); clkNsec = hxInt(l, 4); quantum = hxInt(l, 5); spur = (int)hxInt(l, 6); eintr = (int)hxInt(l, 7);
   if(clkNsec < 0 || clkNsec >= 1000000000L || quantum <= 0 || initVal < 0) { prim = P_NONE; return false; }
-  createFail = 0;
+  createFail = 0; enosys = 0;
   int first = 8;
   if(strncmp(l.tok[8], "F:", 2) == 0)
   {
     char* e; long n = strtol(l.tok[8] + 2, &e, 10);
     if(*e || e == l.tok[8] + 2 || n < 0) { prim = P_NONE; return false; }
     createFail = (int)n; first = 9;
+  }
+  else if(strncmp(l.tok[8], "N:", 2) == 0)   // sem_timedwait may report ENOSYS n times (implementation-only runs: not in the model)
+  {
+    char* e; long n = strtol(l.tok[8] + 2, &e, 10);
+    if(*e || e == l.tok[8] + 2 || n < 0 || pr != P_SEM) { prim = P_NONE; return false; }
+    enosys = (int)n; first = 9;
   }
   if(first >= l.ntok) { prim = P_NONE; return false; }
   for(int i = first; i < l.ntok; ++i)
@@ -264,6 +270,7 @@ static void child(int np, const int* pt, const int* pa, unsigned long long seed)
   alarm(20);
   sched_begin(np, pt, pa, clkSec, clkNsec, quantum, spur, eintr, seed);
   sched_set_create_failures(createFail);
+  sched_set_enosys(enosys);
   occOwner = -1; occDepth = 0;
   for(int i = 0; i < SCHED_MAXT; ++i) nguards[i] = 0;
   if(prim == P_MTX) mtx = new Mutex;
